@@ -148,6 +148,13 @@ def ops : List (String × Handler) := [
     | .error e => return Json.mkObj [("error", Json.str (inferErrS e))]),
   ("c19.reorder", fun j => do
     return Json.mkObj [("body", moduleJ (reorder (moduleOf (← j.getObjVal? "body"))))]),
+  ("c19.assemble", fun j => do
+    let cfg ← cfgOf j
+    let syms := moduleOf (← j.getObjVal? "syms")
+    let all ← (← getArr j "all").toList.mapM (fun x => do return (← x.getStr?).toList)
+    match assemble cfg syms all with
+    | .ok body => return Json.mkObj [("module", moduleJ body)]
+    | .error e => return Json.mkObj [("error", Json.str (errName e))]),
   ("c19.gen", fun j => do
     let cfg ← cfgOf j
     let input ← inputOf j
